@@ -176,6 +176,14 @@ def dump(ds, root, kept):
         except Exception as ex:  # noqa: BLE001
             got = f"{type(ex).__name__}"
         iters.append([si, got])
+        if kept is not None:
+            # the handle that has been writing (and listing) all along must see what a freshly opened one sees
+            try:
+                got_live = [int(np.asarray(e["a"]).reshape(-1)[0]) for e in kept.as_numpy_iterator(split=s, repeat=False, shuffle=0)]
+            except Exception as ex:  # noqa: BLE001
+                got_live = f"{type(ex).__name__}"
+            if got_live != got:
+                problems.append(f"split {s}: the handle kept open since before this session iterates {str(got_live)[:80]} but a fresh handle iterates {str(got)[:80]}")
     ext = "." + fresh.dataset_structure.shard_file_type
     for d, _dirs, fs in os.walk(root):
         for x in fs:
